@@ -841,3 +841,40 @@ def c19(ctx):
         assumptions=["the Go-type vocabulary is a finite hand-written library, not a quantifier TLC ranges over",
                      "an empty slice / map and a nil one hold the same data; Keys order is canonicalised after a sorting codec"],
         exhaustive=not quick)
+
+
+# --------------------------------------------------------------------------- concurrency
+def cc_cfg(ng, opsper):
+    return """SPECIFICATION Spec
+CONSTANTS
+  NG = %d
+  OpsPer = %d
+  OpNames <- AllOps
+INVARIANTS NoConflict Emit
+CHECK_DEADLOCK FALSE
+""" % (ng, opsper)
+
+
+@prop("C20")
+def c20(ctx):
+    quick = ctx.tier == "quick"
+    for ng, opsper, iters in ((2, 1, 30), (3, 1, 6 if quick else 30)):
+        f = os.path.join(ctx.scratch, "cc-%d-%d.ndjson" % (ng, opsper))
+        ctx.tlc("ConcurrencyGen", cc_cfg(ng, opsper), capture=f, workers=8, timeout=2400)
+        args = ["conc", "-in", f, "-iters", str(iters)]
+        rep = ctx.vh_run(args, race=True, race_target="concurrent", timeout=3000)
+        ctx.absorb(rep, args, label="conc/%dx%d" % (ng, opsper), race=True, race_target="concurrent")
+    return ctx.finish(
+        "exploration",
+        rule="mixes = every assignment of one operation to each of 2 and of 3 goroutines from 15 read-only operations (full "
+             "read of generic / reflection-bound / representation nodes, DeepEqual, Copy, dag-cbor and dag-json encode, a "
+             "walk with a shared compiled selector and Config across links, Load and LoadRaw through a shared link system "
+             "over a read-only store, building from shared prototypes, Wrap with an explicit schema, Prototype with an "
+             "inferred schema, first field lookups on a freshly created struct type); TLC checks NoConflict on the declared "
+             "footprints for every interleaving of begin/end and emits the mixes; each mix runs free-running under the Go "
+             "race detector with every result compared to the sequential run; non-trivial = every mix; distinct = distinct "
+             "mixes",
+        assumptions=["the data-race verdict comes from executions observed by the Go race detector (compiler "
+                     "instrumentation as the trace recorder), not from TLC", "no scheduler gates are used: channel hand-offs "
+                     "would add happens-before edges and hide races"],
+        exhaustive=False)
